@@ -176,7 +176,7 @@ def make_tlc_dir(main, mc_text, cfg_text, extra_files=None):
     return d
 
 
-def run_tlc(main, cfg_text, mc_text=None, workers=1, timeout=900, on_record=None,
+def run_tlc(main, cfg_text, mc_text=None, workers=1, timeout=900, on_record=None, on_raw=None,
             simulate=None, depth=None, seed=None, coverage=False, extra_files=None,
             env=None, xmx='3g', keep_dir=None, extra_args=None, deadlock=None, dfid=None):
     """Run TLC on module `main` (taken from /verif/spec unless mc_text is given).
@@ -218,6 +218,9 @@ def run_tlc(main, cfg_text, mc_text=None, workers=1, timeout=900, on_record=None
         for line in proc.stdout:
             if line.startswith('"{') or line.startswith('"['):
                 res.records += 1
+                if on_raw is not None:
+                    on_raw(line)
+                    continue
                 if on_record is not None:
                     try:
                         obj = json.loads(json.loads(line))
@@ -374,6 +377,76 @@ def run_shards(ctx, consumer, jobs, nproc=None, what='', allow_violation=False, 
         results.append(cres)
     merged = merge_results(results)
     merged['tlc'] = [o[1] for o in outs]
+    return merged
+
+
+def _batch_worker(job):
+    (modname, clsname, payload, lines) = job
+    try:
+        sys.setrecursionlimit(10000)
+        mod = importlib.import_module(modname)
+        cons = getattr(mod, clsname)(payload)
+        for line in lines:
+            cons.feed(json.loads(json.loads(line)))
+        if hasattr(cons, 'close'):
+            cons.close()
+        return ('ok', cons.result())
+    except BaseException:  # noqa
+        return ('fail', traceback.format_exc())
+
+
+def run_dispatch(ctx, consumer, job, what='', nproc=None, batch=400, allow_timeout=False,
+                 allow_violation=False):
+    """One TLC process; the records it prints are handed in batches to a process pool that
+    runs the consumer (used when the model cannot be sharded by its initial state)."""
+    import threading
+    nproc = nproc or NPROC
+    results = []
+    errors = []
+    sem = threading.Semaphore(4 * nproc)
+    buf = []
+
+    def done_cb(out):
+        sem.release()
+        if out[0] == 'ok':
+            results.append(out[1])
+        else:
+            errors.append(out[1])
+
+    def err_cb(e):
+        sem.release()
+        errors.append(repr(e))
+
+    with multiprocessing.get_context('fork').Pool(nproc) as pool:
+        def flush():
+            if not buf:
+                return
+            sem.acquire()
+            pool.apply_async(_batch_worker, ((consumer[0], consumer[1], job.get('payload'), list(buf)),),
+                             callback=done_cb, error_callback=err_cb)
+            del buf[:]
+
+        def on_raw(line):
+            buf.append(line)
+            if len(buf) >= batch:
+                flush()
+        res = run_tlc(job['main'], job['cfg'], mc_text=job.get('mc'), on_raw=on_raw, **job.get('tlc_kw', {}))
+        flush()
+        pool.close()
+        pool.join()
+    if errors:
+        raise MachineryError('%s: consumer failed:\n%s' % (what, errors[0]))
+    ctx.add_tlc(res, what)
+    bad = res.exit != 0 or res.error
+    if res.timed_out and allow_timeout:
+        bad = False
+    if res.violated and allow_violation and not res.error:
+        bad = False
+    if bad:
+        raise MachineryError('%s: TLC exit=%s violated=%s error=%s\n%s' % (
+            what, res.exit, res.violated, res.error, res.tail[-3000:]))
+    merged = merge_results(results)
+    merged['tlc'] = [res.summary()]
     return merged
 
 
